@@ -232,6 +232,9 @@ def snapshot(root):
             names = os.listdir(d)
         except OSError:
             return
+        if len(pre) >= 8:                 # far deeper than anything the generator asks for
+            out[pre + (b"<runaway>",)] = b"<runaway recursion>"
+            return
         for n in names:
             p = os.path.join(d, n)
             if os.path.islink(p):
@@ -391,6 +394,9 @@ def oracle(before, r, status, after, verdict, reftree):
     """property-level judgement of one observed transition; returns (signature, message) or None"""
     ok2xx = 200 <= status < 300 and status != 207
     for k in after:
+        if k[-1] == b"<runaway>":
+            return ("runaway-recursion", "%s (%d) created a collection nested more than 8 levels deep: %s…" %
+                    (r.describe(), status, b"/".join(k[:9]).decode("latin-1")))
         if not NAME_OK.match(k[-1]):
             return ("tmp-left", "temporary or foreign name %r left in the collection after %s"
                     % (k[-1], r.describe()))
@@ -660,6 +666,14 @@ def start_server(bd, strace=None, env=None):
     return srv
 
 
+def discard(srv):
+    try:
+        srv.stop(signal.SIGKILL)
+    except Exception:
+        pass
+    subprocess.run(["rm", "-rf", srv.root], stdout=subprocess.DEVNULL, stderr=subprocess.DEVNULL)
+
+
 def outside_state(srv, hosts):
     """what must not change: siblings of the collections and the upload directory"""
     v = os.path.join(srv.root, "v")
@@ -777,7 +791,7 @@ def stream_seq(ctx, bd):
                              (seqs[i][max(0, n - 1)].describe(), (rep or srv.logs()[-1500:])[:1800]))
                 out.append((i, n, f, keys))
                 if f is not None and f["sig"].startswith("server-crash"):
-                    srv.stop()
+                    discard(srv)
                     srv = start_server(bd).start()
                     continue
             now = outside_state(srv, hosts)
@@ -787,6 +801,7 @@ def stream_seq(ctx, bd):
                                         "files were left: %r" % (now,)), []))
         finally:
             srv.stop()
+            discard(srv)
         return out
     with ThreadPoolExecutor(nsrv) as ex:
         res = [x for part in ex.map(worker, range(nsrv)) for x in part]
@@ -1029,6 +1044,10 @@ class PutCase:
             self.kind, "absent" if self.old is None else "%d bytes" % len(self.old), len(self.body), self.pre)
 
 
+def put_input(case, events, inj=None):
+    return case.model_line(events) + " # pre=" + case.pre + (" # inject=" + inj if inj else "")
+
+
 def pat(seed, n):
     return bytes((seed * 31 + i * 7 + (i >> 8) * 3) & 0xff for i in range(n))
 
@@ -1198,7 +1217,7 @@ def stream_put_trace(ctx, bd):
         if status == "crash":
             findings.append(dict(kind="oracle", sig="server-crash", step=ci, obs="", model="",
                                  what="server crashed during %s: %s" % (case.describe(), str(tgt)[:1500]),
-                                 input=case.model_line([])))
+                                 input=put_input(case, [])))
             continue
         ctx.evaluations += 1
         ctx.keys["put-trace:%s:%s:%s" % (case.kind.split(":")[0], "new" if case.old is None else "replace",
@@ -1206,7 +1225,7 @@ def stream_put_trace(ctx, bd):
         j = judge_put(case, status, tgt, others, uploads, False)
         if j:
             findings.append(dict(kind="oracle", sig=j[0], what=j[1], step=ci, obs=" ".join(events), model="",
-                                 input=case.model_line(events)))
+                                 input=put_input(case, events)))
         lines.append(case.model_line(events))
         idx.append((ci, status, tgt, others, events))
         calib.append((case, [c[0] for c in calls]))
@@ -1219,7 +1238,7 @@ def stream_put_trace(ctx, bd):
             if msg:
                 findings.append(dict(kind="corr", sig="put-trace:" + cases[ci].kind.split(":")[0],
                                      what="%s: %s; events: %s" % (cases[ci].describe(), msg, " ".join(events)),
-                                     step=ci, obs=" ".join(events), model=m, input=cases[ci].model_line(events)))
+                                     step=ci, obs=" ".join(events), model=m, input=put_input(cases[ci], events)))
     report_findings(ctx, "put-trace", findings, lambda f: f["input"][:4000])
     ctx.streams.append({"name": "put-trace", "cases": len(cases),
                         "disagreements": sum(1 for f in findings if f["kind"] == "corr"),
@@ -1317,13 +1336,13 @@ def stream_put_fault(ctx, bd, startup_count, calib):
         if o["rep"]:
             findings.append(dict(kind="oracle", sig="server-crash", step=ji, obs=inj, model="",
                                  what="sanitizer report during %s with %s: %s" % (case.describe(), inj, o["rep"][:1500]),
-                                 input=case.model_line(o["events"]) + " # inject=" + inj))
+                                 input=put_input(case, o["events"], inj)))
             continue
         j = judge_put(case, o["status"], o["tgt"], o["others"], o["uploads"] if not o["killed"] else [], o["killed"])
         if j:
             findings.append(dict(kind="oracle", sig=j[0], what=j[1] + " [strace inject=%s]" % inj, step=ji,
                                  obs=" ".join(o["events"]), model="",
-                                 input=case.model_line(o["events"]) + " # inject=" + inj))
+                                 input=put_input(case, o["events"], inj)))
             continue
         if not o["killed"]:
             lines.append(case.model_line(o["events"]))
@@ -1338,7 +1357,7 @@ def stream_put_fault(ctx, bd, startup_count, calib):
                                      what="%s with inject=%s: %s; events: %s" %
                                      (case.describe(), inj, msg, " ".join(o["events"])), step=ji,
                                      obs=" ".join(o["events"]), model=m,
-                                     input=case.model_line(o["events"]) + " # inject=" + inj))
+                                     input=put_input(case, o["events"], inj)))
     report_findings(ctx, "put-fault", findings, lambda f: f["input"][:4000])
     ctx.streams.append({"name": "put-fault", "cases": len(jobs), "fired": nfired,
                         "disagreements": sum(1 for f in findings if f["kind"] == "corr"),
@@ -1585,6 +1604,16 @@ def run(ctx):
     stream_sampler(ctx, bd)
     ctx.rule = ("distinct (stream, method, status, reference verdict) / (PUT kind, fault, outcome) tuples "
                 "observed on the real server")
+    ctx.assumptions += [
+        "collections contain no symbolic links; one server process (no concurrent writers of the same target)",
+        "Linux rename()/linkat()/O_TMPFILE semantics (atomic replace; unlinked files vanish with their descriptor)",
+        "webdav.opts partial-put-copy-modify enabled; deprecated-unsafe-partial-put (in-place) is outside the claim",
+        "WebDAV locks / dead properties are compiled out in this build"]
+    ctx.notes.append(
+        "documented lighttpd deviations from RFC 4918, modelled as implemented and outside the reference theorem "
+        "(oracle verdict 'any', only the safety invariants are judged): COPY/MOVE of a collection onto an existing "
+        "non-empty collection merges; a file copied/moved onto an existing collection goes *into* it; Depth:0 COPY "
+        "onto an existing resource answers 204/403 without replacing it; '/d/' onto '/d' is a no-op 200")
     ctx.trusted = ["Lean 4.33.0 kernel", "hand-written models tied to the code by the e2e streams below",
                    "Linux file-system semantics", "strace fault/kill injection", "gcc + ASan/UBSan",
                    "Python RFC 4918 reference oracle"]
@@ -1593,21 +1622,50 @@ def run(ctx):
 def replay_line(ctx, rep):
     line = rep["input"]
     toks = line.split(" ")
+    bd, err = e2e.build_server()
+    if toks[0] == "put":
+        main, _, tail = line.partition(" # pre=")
+        pre, _, inj = tail.partition(" # inject=")
+        f = main.split(" ")
+        case = PutCase(f[1], None if f[2] == "none" else C.unhx(f[2]), C.unhx(f[3]), pre=pre or "----")
+        srv = start_server(bd, strace=(inj,) if inj else ())
+        srv.start()
+        try:
+            docroot, mark, status = do_put(srv, "replay.test", case, timeout=6.0)
+            text = trace_slice(srv, mark, settle=0.3)
+            calls, killed = parse_trace(text)
+            dead = not srv.alive()
+            tgt, others = dir_state(docroot, case.name)
+            uploads = sorted(os.listdir(os.path.join(srv.root, "tmp")))
+            events = abstract(calls, os.path.join(docroot, case.name), case.kind)
+        finally:
+            srv.stop(signal.SIGKILL)
+        print(case.describe(), "inject=%s" % (inj or "-"))
+        print("status:", status, "server dead:", dead, "events:", " ".join(events))
+        print("target:", None if tgt is None else (len(tgt), tgt[:40]), "other names:", others, uploads)
+        j = judge_put(case, status, tgt, others, [] if dead else uploads, dead)
+        mo = model_put([case.model_line(events)])
+        msg = None if dead or mo is None else check_prediction(case, mo[0], status, tgt, others)
+        print("oracle:", j, "\nmodel:", mo[0] if mo else None, "\nprediction:", msg)
+        if j or msg:
+            print("VIOLATION property=%s replay=%s" % (ctx.pid, "(replayed)"))
+            return 1
+        return 0
     if toks[0] != "seq":
-        print("replay of %s inputs: re-run the check" % toks[0])
+        print("replay of %r inputs: re-run the check" % toks[0])
         return 0
     reqs = [parse_token(t) for t in toks[1:]]
-    bd, err = e2e.build_server()
     m, _, _ = C.run_model("dav", [line])
     exp = m[0].split(" ") if m else None
     srv = start_server(bd)
     with srv:
         n, f, keys = run_sequence(srv, "replay.test", reqs, exp)
+        rep2 = srv.sanitizer_report()
     for r in reqs:
         print("  ", r.describe())
     print("model:", m[0] if m else None)
-    print("finding:", f)
-    if f is not None:
+    print("finding:", f, ("\nsanitizer: " + rep2[:1500]) if rep2 else "")
+    if f is not None or rep2:
         print("VIOLATION property=%s replay=%s" % (ctx.pid, "(replayed)"))
         return 1
     return 0
